@@ -83,5 +83,6 @@ var rareSeeds = []rareSeed{
 	{"class A { static 1n(){} get 2n(){ return 1 } set 3n(v){} static async 4n(){} static *5n(){} async *6n(){} static get 7n(){ return 1 } }", "b"}, {"x = { get 1n(){ return 1 }, set 1n(v){}, async 2n(){}, *3n(){}, async *4n(){} }", "b"},
 	{"class A { static 1(){} get 0x2(){ return 1 } static 'a'(){} static async 1e3(){} accessor 5 = 1; static accessor 6n = 2 }", "b"},
 	{"'use\\x20strict'; with (a) b", "s"}, {"function f(){ 'use\\x20strict'; with (a) b }", "s"}, {"'use strict\\\n'; with (a) b", "s"}, {"('use strict'); with (a) b", "s"}, {"'use strict', 1; with (a) b", "s"},
+	{"async function f(){ await a(), await b(); await a, b; for (await a, b;;) break }", "b"}, {"await a(), await b(); for (await a, b;;) break", "m"}, {"async () => { await a, b }", "b"}, {"async function* g(){ await a, yield b; yield a, await b }", "b"}, {"class C { async m(){ await a, b } }", "b"},
 	{"function* g(){ yield; yield yield; yield* yield; x = yield, y = yield a ? b : c; (yield) }", "b"}, {"function* g(){ x = [yield, yield a]; y = {a: yield}; z = `${yield}`; f(yield, yield b) }", "b"}, {"function* g(){ yield\n* 2 }", "none"}, {"function* g(){ function yield2(){} var o = {yield}; }", "none"},
 }
